@@ -1043,8 +1043,13 @@ class MindsDBParser(Parser):
 
     # tableau
     @_('LPAREN select RPAREN')
+    def select(self, p):
+        return p[1]
+
     @_('LPAREN union RPAREN')
     def select(self, p):
+        # keep the parentheses: a set operation as the right operand of another one, or as a sub-query, needs them
+        p[1].parentheses = True
         return p[1]
 
     # WITH
